@@ -1,7 +1,12 @@
 //! Callbacks of the C13 table.  Every decision is a pure function of the matched text:
-//! `sel(lex) = (slice length + first byte) % 4`.
+//! `sel = match length % 4`.  Every callback first records its invocation (span, and whether
+//! slice() equals source[span()]) in a thread-local log that the driver prints.
 #![allow(dead_code)]
-use logos::{Filter, FilterResult, Lexer, Logos, Skip, Source};
+use std::cell::RefCell;
+
+use logos::{Filter, FilterResult, Lexer, Logos, Skip};
+
+use crate::Bytes;
 
 #[derive(Debug, Clone, PartialEq, Default)]
 pub enum E {
@@ -17,6 +22,82 @@ impl From<u8> for E {
     }
 }
 
-pub fn sel_of(first: u8, len: usize) -> u8 {
-    ((len + first as usize) % 4) as u8
+thread_local! {
+    pub static LOG: RefCell<Vec<(usize, usize, bool)>> = const { RefCell::new(Vec::new()) };
+}
+
+pub fn take_log() -> Vec<(usize, usize, bool)> {
+    LOG.with(|l| std::mem::take(&mut *l.borrow_mut()))
+}
+
+/// Record the invocation and return (sel, len).
+pub fn note<'s, T>(lex: &mut Lexer<'s, T>) -> (u8, u32)
+where
+    T: Logos<'s>,
+    T::Source: Bytes,
+    <T::Source as logos::Source>::Slice<'s>: Bytes,
+{
+    let sp = lex.span();
+    let all = lex.source().bytes_of();
+    let ok = sp.start <= sp.end && sp.end <= all.len() && lex.slice().bytes_of() == &all[sp.clone()];
+    LOG.with(|l| l.borrow_mut().push((sp.start, sp.end, ok)));
+    let len = sp.end - sp.start;
+    ((len % 4) as u8, len as u32)
+}
+
+macro_rules! cb {
+    ($name:ident -> $ret:ty, |$sel:ident, $len:ident, $lex:ident| $body:expr) => {
+        pub fn $name<'s, T>($lex: &mut Lexer<'s, T>) -> $ret
+        where
+            T: Logos<'s>,
+            T::Source: Bytes,
+            <T::Source as logos::Source>::Slice<'s>: Bytes,
+        {
+            let ($sel, $len) = note($lex);
+            let _ = ($sel, $len);
+            $body
+        }
+    };
+}
+
+// unit variants
+cb!(unit_unit -> (), |sel, len, lex| ());
+cb!(unit_bool -> bool, |sel, len, lex| sel % 2 == 0);
+cb!(unit_skip -> Skip, |sel, len, lex| Skip);
+cb!(unit_res_skip -> Result<Skip, u8>, |sel, len, lex| if sel < 2 { Ok(Skip) } else { Err(sel) });
+cb!(unit_filter -> Filter<()>, |sel, len, lex| if sel % 2 == 0 { Filter::Emit(()) } else { Filter::Skip });
+// value variants (field type u32)
+cb!(val_t -> u32, |sel, len, lex| len);
+cb!(val_opt -> Option<u32>, |sel, len, lex| if sel % 2 == 0 { Some(len) } else { None });
+cb!(val_res -> Result<u32, u8>, |sel, len, lex| if sel < 2 { Ok(len) } else { Err(sel) });
+cb!(val_filter -> Filter<u32>, |sel, len, lex| if sel % 2 == 0 { Filter::Emit(len) } else { Filter::Skip });
+cb!(val_fr -> FilterResult<u32, u8>, |sel, len, lex| match sel {
+    0 | 1 => FilterResult::Emit(len),
+    2 => FilterResult::Skip,
+    _ => FilterResult::Error(sel),
+});
+// skip patterns
+cb!(skip_unit -> (), |sel, len, lex| ());
+cb!(skip_skip -> Skip, |sel, len, lex| Skip);
+cb!(skip_res_unit -> Result<(), u8>, |sel, len, lex| if sel < 3 { Ok(()) } else { Err(sel) });
+cb!(skip_res_skip -> Result<Skip, u8>, |sel, len, lex| if sel < 3 { Ok(Skip) } else { Err(sel) });
+
+/// bump one more character when there is one: the bumped bytes belong to the current item
+pub fn val_bump<'s, T>(lex: &mut Lexer<'s, T>) -> u32
+where
+    T: Logos<'s>,
+    T::Source: Bytes,
+    <T::Source as logos::Source>::Slice<'s>: Bytes,
+{
+    let (_sel, len) = note(lex);
+    let rem = lex.remainder();
+    let rb = rem.bytes_of();
+    if !rb.is_empty() {
+        let mut n = 1;
+        while lex.source().textual() && n < rb.len() && (rb[n] & 0xC0) == 0x80 {
+            n += 1;
+        }
+        lex.bump(n);
+    }
+    len
 }
